@@ -12,7 +12,7 @@ import ast
 from typing import Dict, List, Optional
 
 from ..index import AnalysisError, call_name, norm, norm1
-from .common import calls, enclosing, enclosing_all, fctx, in_body, is_name, method_calls, stmts
+from .common import Frag, calls, const_of, enclosing, enclosing_all, fctx, in_body, is_name, kwarg, method_calls, pmatch, stmts
 
 LEVEL = "other"
 EXPLANATION = (
@@ -105,34 +105,93 @@ def run(ctx) -> None:
     r1.check(okp, "the dropped grid point is the one just absorbed", g, d,
              f"`{norm1(d)}` removes a grid point whose weight was not transferred by an immediately preceding `.absorb({norm1(d.targets[0])})`: "
              f"the weights of the irreducible points no longer sum to one")
+    G = Frag(g)
+    kl = norm(d.targets[0].value.value.value) if isinstance(d.targets[0].value, ast.Subscript) and isinstance(d.targets[0].value.value, ast.Subscript) else None
+    sloop = enclosing(pm, d, ast.For)
+    kvar = sloop.target.id if sloop is not None and isinstance(sloop.target, ast.Name) else None
+    xyz_loops = [l for l in enclosing_all(pm, d, ast.For) if l is not sloop]
+    lv = {}
+    for l in xyz_loops:
+        m_ = pmatch(l.iter, "range(self.div[AX])", {"AX"})
+        if m_ and m_[0][0] is l.iter and isinstance(l.target, ast.Name):
+            lv[int(m_[0][1]["AX"])] = l.target.id
+    r1.expect(kl is not None and kvar is not None and sorted(lv) == [0, 1, 2], "symmetry-reduction loop nest located", g, d,
+              "Grid.get_K_list: the x/y/z loops over range(self.div[i]) and the loop over the star around the drop were not recognised")
+    if kl is None or kvar is None or sorted(lv) != [0, 1, 2]:
+        return
+    xv, yv, zv = lv[0], lv[1], lv[2]
+    r1.check(norm(d.targets[0]).replace(" ", "") == f"{kl}[{kvar}[0]][{kvar}[1]][{kvar}[2]]", "the dropped point is addressed by the image's grid coordinates (x, y, z order)", g, d,
+             f"`{norm1(d.targets[0])}` does not address the image {kvar} as {kl}[{kvar}[0]][{kvar}[1]][{kvar}[2]]")
     guard = enclosing(pm, d, ast.If)
-    r1.check(guard is not None and norm(guard.test).replace(" ", "") == "k!=(x,y,z)", "a point never absorbs / drops itself", g, guard or d,
-             "the self-image of a K-point is not excluded: it would absorb itself and be dropped")
-    t = norm(g.node).replace(" ", "")
-    r1.check("factor=1.0/np.prod(self.div)" in t and "forzinrange(self.div[2])" in t and "foryinrange(self.div[1])" in t and
-             "forxinrange(self.div[0])" in t and "factor=factor" in t, "initial grid: prod(div) points of weight 1/prod(div)", g, g.node,
+    r1.check(guard is not None and norm(guard.test).replace(" ", "") in (f"{kvar}!=({xv},{yv},{zv})", f"({xv},{yv},{zv})!={kvar}") and in_body(guard.body, d),
+             "a point never absorbs / drops itself", g, guard or d, "the self-image of a K-point is not excluded: it would absorb itself and be dropped")
+    kpv = norm(prev.value.func.value) if okp else None
+    kd = du.single_def(kpv, cfg.node(d)) if kpv and kpv.isidentifier() else None
+    live = [x for x in enclosing_all(pm, d, ast.If) if kpv and norm(x.test) in (f"{kpv} is not None",)]
+    r1.check(kd is not None and norm(kd.value).replace(" ", "") == f"{kl}[{xv}][{yv}][{zv}]" and bool(live),
+             "the absorbing point is the live grid point (x, y, z) itself", g, kd.stmt if kd else d,
+             "the absorbing K-point is not the (still present) grid point whose star is being removed")
+    sd = du.single_def(norm(sloop.iter), cfg.node(sloop)) if isinstance(sloop.iter, ast.Name) else None
+    sv = sd.value if sd is not None else sloop.iter
+    star_ok = bool(pmatch(sv, f"[tuple(K_) for K_ in np.array(np.round({kpv}.star * self.div), dtype=int) % self.div]", {"K_"})
+                   or pmatch(sv, f"[tuple(K_) for K_ in np.round({kpv}.star * self.div).astype(int) % self.div]", {"K_"})
+                   or pmatch(sv, f"[tuple(K_) for K_ in np.rint({kpv}.star * self.div).astype(int) % self.div]", {"K_"}))
+    r1.check(star_ok, "images are the star of the point, in integer grid coordinates folded onto the grid", g, sd.stmt if sd else sloop,
+             "symmetry images are no longer round(KP.star · div) mod div", stmt="star")
+    ctor = [c for c in ast.walk(g.node) if isinstance(c, ast.Call) and call_name(c) == "KpointBZparallel"]
+    okc = False
+    if len(ctor) == 1:
+        fv = kwarg(ctor[0], "factor")
+        fv = du.resolve_local(fv, du.node_of_expr(ctor[0])) if fv is not None else None
+        okf = fv is not None and bool(pmatch(fv, "1.0 / np.prod(self.div)") or pmatch(fv, "1 / np.prod(self.div)") or pmatch(fv, "1.0 / self.div.prod()"))
+        comp = [n for n in ast.walk(g.node) if isinstance(n, ast.ListComp) and any(x is ctor[0] for x in ast.walk(n))]
+        gens = {}
+        for n in comp:
+            for ge in n.generators:
+                m_ = pmatch(ge.iter, "range(self.div[AX])", {"AX"})
+                if m_ and m_[0][0] is ge.iter and isinstance(ge.target, ast.Name) and not ge.ifs:
+                    gens[int(m_[0][1]["AX"])] = ge.target.id
+        kk = kwarg(ctor[0], "K")
+        okK = sorted(gens) == [0, 1, 2] and kk is not None and bool(pmatch(kk, f"np.array([{gens.get(0)}, {gens.get(1)}, {gens.get(2)}]) * DK", {"DK"}))
+        okc = okf and okK
+    r1.check(okc, "initial grid: prod(div) points (x, y, z)·dK, each of weight 1/prod(div)", g, ctor[0] if ctor else g.node,
              "the initial grid is no longer prod(div) points of weight 1/prod(div)", stmt="initial weights")
-    r1.check("KP.star*self.div" in t and "%self.div" in t, "images are the star of the point folded onto the grid", g, g.node,
-             "symmetry images are no longer taken from KP.star folded modulo the grid", stmt="star")
-    r1.check("forKyzinK_listforKzinKyzforKinKzifKisnotNone" in t, "the returned list keeps exactly the points that were not dropped", g, g.node,
+    flat = [s_ for s_ in stmts(g.node) if isinstance(s_, ast.Assign) and pmatch(s_.value, f"[K_ for A_ in {kl} for B_ in A_ for K_ in B_ if K_ is not None]", {"K_", "A_", "B_"})
+            and pmatch(s_.value, f"[K_ for A_ in {kl} for B_ in A_ for K_ in B_ if K_ is not None]", {"K_", "A_", "B_"})[0][0] is s_.value]
+    rets1 = [s_ for s_ in stmts(g.node) if isinstance(s_, ast.Return)]
+    r1.check(len(flat) == 1 and len(rets1) == 1 and norm(rets1[0].value) == norm(flat[0].targets[0]) and cfg.dominates(cfg.node(flat[0]), cfg.node(rets1[0])),
+             "the returned list keeps exactly the points that were not dropped", g, flat[0] if flat else g.node,
              "the final K-list is not 'all grid points that were not dropped'", stmt="flatten")
     ex = idx.function(KP, "exclude_equiv_points")
     ecfg, edu, epm = fctx(ex)
-    app = [c for c in method_calls(ex.node, "append") if norm(c.func.value) == "exclude"]
     ab = method_calls(ex.node, "absorb")
+    klp = ex.params[0]
+    dl0 = [s_ for s_ in stmts(ex.node) if isinstance(s_, ast.Delete)]
+    dlp0 = enclosing(epm, dl0[0], ast.For) if dl0 else None
+    cand_lists = {n.id for n in ast.walk(dlp0.iter) if isinstance(n, ast.Name)} if dlp0 is not None else set()
+    app = [c for c in method_calls(ex.node, "append") if norm(c.func.value) in cand_lists]
     if len(app) != 1 or len(ab) != 1:
-        raise AnalysisError("exclude_equiv_points: expected one exclude.append and one absorb")
+        raise AnalysisError("exclude_equiv_points: expected one absorb and one append to the list that drives the deletion loop")
+    excl = norm(app[0].func.value)
     r1.instance(f"{ex.short}: {norm1(app[0])} / {norm1(ab[0])}")
     j = norm(app[0].args[0])
     same_block = enclosing(epm, app[0], ast.If) is enclosing(epm, ab[0], ast.If)
-    r1.check(same_block and norm(ab[0].args[0]) == f"K_list[{j}]" and norm(ab[0].func.value) != f"K_list[{j}]",
+    eqg = enclosing(epm, ab[0], ast.If)
+    absorber = norm(ab[0].func.value)
+    eq_ok = eqg is not None and norm(eqg.test) in (f"{absorber}.equiv({klp}[{j}])", f"{klp}[{j}].equiv({absorber})")
+    r1.check(eq_ok, "a point is excluded only if it is equivalent to the point that absorbs it", ex, eqg or ex.node,
+             f"`{norm1(ab[0])}` is not guarded by the equivalence test of exactly these two K-points")
+    r1.check(same_block and norm(ab[0].args[0]) == f"{klp}[{j}]" and absorber != f"{klp}[{j}]" and absorber.startswith(f"{klp}["),
              "every excluded point is absorbed by its partner in the same guarded block", ex, enclosing(epm, app[0], ast.stmt),
              f"index `{j}` is put on the exclusion list but `{norm1(ab[0])}` absorbs a different element: weight is lost or duplicated")
+    once = [x for x in enclosing_all(epm, ab[0], ast.If) if norm(x.test) == f"{j} not in {excl}"]
+    r1.check(bool(once), "a point already excluded is not absorbed a second time", ex, enclosing(epm, ab[0], ast.stmt),
+             f"`{norm1(ab[0])}` is not guarded by `{j} not in {excl}`: a K-point can be absorbed by two partners and its weight counted twice")
     dl = [s for s in stmts(ex.node) if isinstance(s, ast.Delete)]
     dloop = enclosing(epm, dl[0], ast.For) if dl else None
-    r1.check(len(dl) == 1 and dloop is not None and "exclude" in norm(dloop.iter) and norm(dl[0].targets[0]) == f"K_list[{norm(dloop.target)}]",
+    r1.check(len(dl) == 1 and dloop is not None and excl in norm(dloop.iter) and norm(dl[0].targets[0]) == f"{klp}[{norm(dloop.target)}]",
              "exactly the excluded indices are deleted", ex, dl[0] if dl else ex.node, "the deletion loop does not delete exactly the excluded indices")
-    r1.check(dloop is not None and norm(dloop.iter).replace(" ", "") in ("sorted(exclude)[-1::-1]", "sorted(exclude,reverse=True)", "reversed(sorted(exclude))"),
+    r1.check(dloop is not None and norm(dloop.iter).replace(" ", "") in (f"sorted({excl})[-1::-1]", f"sorted({excl})[::-1]", f"sorted({excl},reverse=True)", f"reversed(sorted({excl}))"),
              "deletion runs from the highest index down (indices stay valid)", ex, dloop or ex.node,
              f"indices are deleted in the order `{norm1(dloop.iter) if dloop is not None else None}`: earlier deletions shift later indices and the "
              f"wrong K-points (with non-zero weight) are removed")
@@ -142,15 +201,30 @@ def run(ctx) -> None:
     _divide_rule(r2, idx.function(KP, "KpointBZparallel.divide"), "KpointBZparallel")
     _divide_rule(r2, idx.function(KT, "KpointBZtetra.divide"), "KpointBZtetra")
     td = idx.function(KT, "KpointBZtetra.divide")
-    tt = norm(td.node).replace(" ", "")
-    r2.check("dv=(self.vertices[edge[1]]-v0)/ndiv" in tt and "v0+i*dv,v0+(i+1)*dv" in tt and "self.vertices[edge_comp[0]],self.vertices[edge_comp[1]]" in tt,
-             "tetrahedron children: the split edge is cut into ndiv consecutive segments, the opposite edge is shared", td, td.node,
+    T = Frag(td)
+    nd = "ndiv"
+    ok_t = T.all(f"v0 = self.vertices[edge[0]]", f"dv = (self.vertices[edge[1]] - v0) / {nd}") and \
+        bool(T.find("np.array([self.vertices[edge_comp[0]], self.vertices[edge_comp[1]], v0 + i * dv, v0 + (i + 1) * dv])")) and \
+        T.all("edge = EDGES[i_edge]", "edge_comp = EDGES_COMPLEMENT[i_edge]")
+    if ok_t:
+        tl = [l for l in stmts(td.node) if isinstance(l, ast.For) and isinstance(l.target, ast.Name) and l.target.id == T.binding.get("i")]
+        ok_t = len(tl) == 1 and norm(tl[0].iter) == f"range({nd})"
+    r2.check(ok_t, "tetrahedron children: the split edge is cut into ndiv consecutive segments, the opposite edge is shared", td, td.node,
              "the sub-tetrahedra no longer tile the parent (split edge v0+i·dv … v0+(i+1)·dv with dv = edge/ndiv, opposite edge kept)",
              stmt="tetra tiling")
     pd = idx.function(KP, "KpointBZparallel.divide")
-    tp = norm(pd.node).replace(" ", "")
-    r2.check("dK_adpt=self.dK/ndiv" in tp and "adpt_shift=(-self.dK+dK_adpt)/2.0" in tp and "K=K0+adpt_shift+dK_adpt*np.array([x,y,z])" in tp and "dK=dK_adpt" in tp,
-             "parallelepiped children tile the parent cell (size dK/ndiv, centred sub-cells)", pd, pd.node,
+    P = Frag(pd)
+    ok_p = P.all(f"dK_adpt = self.dK / {nd}", "adpt_shift = (-self.dK + dK_adpt) / 2.0", "K0 = self.K") and \
+        bool(P.find("KpointBZparallel(K=K0 + adpt_shift + dK_adpt * np.array([x, y, z]), dK=dK_adpt, NKFFT=ANY, factor=ANY, pointgroup=ANY, refinement_level=ANY)"))
+    if ok_p:
+        order = []
+        for l in stmts(pd.node):
+            if isinstance(l, ast.For) and isinstance(l.target, ast.Name) and l.target.id in (P.binding.get("x"), P.binding.get("y"), P.binding.get("z")):
+                m_ = pmatch(l.iter, f"range({nd}[AX])", {"AX"})
+                if m_ and m_[0][0] is l.iter:
+                    order.append((l.target.id, int(m_[0][1]["AX"])))
+        ok_p = sorted(order) == sorted([(P.binding["x"], 0), (P.binding["y"], 1), (P.binding["z"], 2)])
+    r2.check(ok_p, "parallelepiped children tile the parent cell (size dK/ndiv, centred sub-cells, index i along direction i)", pd, pd.node,
              "the sub-cells of a refined K-point no longer tile the parent cell", stmt="parallelepiped tiling")
 
     # ---------------------------------------------------------------- R06.3
@@ -169,37 +243,58 @@ def run(ctx) -> None:
              "absorb() can return without adding the absorbed point's weight", stmt="absorb paths",
              path=acfg.describe_path(acfg.path_avoiding(acfg.entry, acfg.exit, adds + ([guard_ret] if guard_ret is not None else [])) or []))
     kb = idx.cls(KP, "KpointBZ")
-    r3.check("self.factor += factor" in norm(kb.methods["add_factor"].node) and "self.factor = factor" in norm(kb.methods["set_factor"].node),
+    af, sf = kb.methods["add_factor"], kb.methods["set_factor"]
+    r3.check(bool(pmatch(af.node, f"self.factor += {af.params[1]}") or pmatch(af.node, f"self.factor = self.factor + {af.params[1]}")) and bool(pmatch(sf.node, f"self.factor = {sf.params[1]}")),
              "add_factor / set_factor do what their names say", kb.methods["add_factor"], kb.methods["add_factor"].node,
              "KpointBZ.add_factor/set_factor changed meaning", stmt="add/set")
-    r3.check("return self.get_result() * self.factor" in norm(kb.methods["get_result_factor"].node), "a K-point contributes result × factor",
+    r3.check(bool(pmatch(kb.methods["get_result_factor"].node, "return self.get_result() * self.factor") or pmatch(kb.methods["get_result_factor"].node, "return self.factor * self.get_result()")),
+             "a K-point contributes result × factor",
              kb.methods["get_result_factor"], kb.methods["get_result_factor"].node, "get_result_factor is not result × factor", stmt="result×factor")
 
     # ---------------------------------------------------------------- R06.4
     r4 = ctx.rule("R06.4", "tetrahedral grids: normalised initial weights; copies keep the weight", min_instances=2)
     gi = idx.function(GT, "GridTetra.__init__")
     r4.instance(gi.short)
-    ti = norm(gi.node).replace(" ", "")
-    r4.check("factor=w" in ti and "zip(tetrahedra,weights)" in ti, "each initial tetrahedron gets its own weight", gi, gi.node,
-             "initial tetrahedra are not paired with their weights", stmt="zip weights")
-    wdefs = [s for s in ast.walk(gi.node) if isinstance(s, ast.Assign) and is_name(s.targets[0], "weights")]
-    r4.note("weights definitions: " + " | ".join(norm1(s, 80) for s in wdefs))
-    oknorm = any("/" in norm(s.value) and ("sum" in norm(s.value)) for s in wdefs) or "_weights/_weights.sum()" in ti or "/sum(" in ti
-    r4.check(oknorm, "initial weights are normalised by their sum", gi, wdefs[0] if wdefs else gi.node,
+    icfg, idu, ipm = fctx(gi)
+    tc_ = [c for c in ast.walk(gi.node) if isinstance(c, ast.Call) and call_name(c) == "KpointBZtetra"]
+    okz = False
+    wname = None
+    if len(tc_) == 1:
+        fl = enclosing(ipm, tc_[0], ast.For)
+        fv = kwarg(tc_[0], "factor")
+        vv = kwarg(tc_[0], "vertices")
+        if fl is not None and isinstance(fl.target, ast.Tuple) and len(fl.target.elts) == 2 and fv is not None and vv is not None:
+            m_ = pmatch(fl.iter, "zip(TT, WW)", {"TT", "WW"})
+            okz = bool(m_) and m_[0][0] is fl.iter and norm(vv) == norm(fl.target.elts[0]) and norm(fv) == norm(fl.target.elts[1])
+            wname = m_[0][1]["WW"] if m_ else None
+    r4.check(okz, "each initial tetrahedron gets its own weight", gi, tc_[0] if tc_ else gi.node,
+             "initial tetrahedra are not paired with their weights (zip(tetrahedra, weights) → vertices, factor)", stmt="zip weights")
+    wdefs = [d_ for ds in idu.defs_at.values() for d_ in ds if wname and d_.name == wname and d_.kind == "assign"]
+    r4.note("weights definitions: " + " | ".join(norm1(d_.stmt, 80) for d_ in wdefs))
+    oknorm = any(bool(pmatch(d_.value, "V_ / sum(V_)", {"V_"}) or pmatch(d_.value, "V_ / V_.sum()", {"V_"}) or pmatch(d_.value, "V_ / np.sum(V_)", {"V_"})) for d_ in wdefs)
+    r4.check(oknorm, "default initial weights are the tetrahedron volumes normalised by their sum", gi, wdefs[0].stmt if wdefs else gi.node,
              "the initial tetrahedron weights are no longer divided by their sum", stmt="normalisation")
     gk = idx.function(GT, "GridTetra.get_K_list")
     r4.instance(gk.short)
-    r4.check("[K.copy() for K in self.K_list]" in norm(gk.node), "run() receives copies of all tetrahedra", gk, gk.node,
+    r4.check(bool(pmatch(gk.node, "return [K_.copy() for K_ in self.K_list]", {"K_"})), "run() receives copies of all tetrahedra", gk, gk.node,
              "GridTetra.get_K_list no longer returns a copy of every tetrahedron", stmt="copies")
     cp = idx.function(KT, "KpointBZtetra.copy")
-    tc = norm(cp.node).replace(" ", "")
-    r4.check("factor=self.factor" in tc and "vertices=self.vertices" in tc and "K=self.K" in tc, "copy() carries weight, vertices and position", cp, cp.node,
-             "KpointBZtetra.copy drops the weight / vertices / position", stmt="copy fields")
+    cc = [c for c in ast.walk(cp.node) if isinstance(c, ast.Call) and call_name(c) == "KpointBZtetra"]
+    kwc = {k.arg: norm(k.value) for k in cc[0].keywords} if len(cc) == 1 else {}
+    r4.check(all(kwc.get(x) == f"self.{x}" for x in ("factor", "vertices", "K", "basis", "NKFFT")), "copy() carries weight, vertices, position, basis and FFT grid", cp,
+             cc[0] if cc else cp.node, f"KpointBZtetra.copy does not carry over every field unchanged ({kwc})", stmt="copy fields")
     for name in ("split_tetra_size", "split_tetra_volume"):
         f = idx.function(GT, "GridTetra." + name)
-        tf = norm(f.node).replace(" ", "")
-        r4.check("klist+=K.divide(ndiv=2,refine=False)" in tf and "else:klist.append(K)" in tf.replace("\n", "") and "self.K_list=klist" in tf,
-                 f"{name}: a tetrahedron is either split (children kept, parent dropped) or kept", f, f.node,
+        S = Frag(f)
+        ifm = S.find("if ANY:\n    klist += K.divide(ndiv=2, refine=False)\nelse:\n    klist.append(K)") or \
+            S.find("if ANY:\n    klist.extend(K.divide(ndiv=2, refine=False))\nelse:\n    klist.append(K)")
+        okS = False
+        if ifm:
+            fl = enclosing(fctx(f)[2], ifm[0][0], ast.For)
+            kv_ = ifm[0][1]["K"]
+            okS = fl is not None and kv_ in [norm(x) for x in ([fl.target] + (list(fl.target.elts) if isinstance(fl.target, ast.Tuple) else []))] and \
+                (norm(fl.iter) == "self.K_list" or bool(pmatch(fl.iter, "zip(self.K_list, ANY)"))) and S.has("klist = []") and S.has("self.K_list = klist")
+        r4.check(okS, f"{name}: a tetrahedron is either split (children kept, parent dropped) or kept", f, f.node,
                  f"{name} no longer replaces a split tetrahedron by its children", stmt=name)
 
     # ---------------------------------------------------------------- R06.5
@@ -212,17 +307,35 @@ def kpoint_action(ctx, rid: str) -> None:
     r5 = ctx.rule(rid, "k-point action of a point-group operation carries the TR and inversion signs")
     tr = idx.function(PS, "PointSymmetry.transform_reduced_vector")
     r5.instance(tr.short)
-    rv = [s for s in stmts(tr.node) if isinstance(s, ast.Return)]
+    rv = [s_ for s_ in stmts(tr.node) if isinstance(s_, ast.Return)]
     txt = norm(rv[0].value) if rv else ""
-    r5.check("self.iTR" in txt and "self.iInv" in txt and "self.R" in txt, "k ↦ iTR · iInv · R k", tr, rv[0] if rv else tr.node,
+    tcfg, tdu, tpm = fctx(tr)
+    facs = set()
+    if rv:
+        sl, _, _ = tdu.backward_slice(rv[0].value, tcfg.node(rv[0]))
+        for e in sl:
+            for n in ast.walk(e):
+                if isinstance(n, ast.Attribute) and is_name(n.value, "self"):
+                    facs.add(n.attr)
+    r5.check(len(rv) == 1 and {"iTR", "iInv", "R"} <= facs, "k ↦ iTR · iInv · R k", tr, rv[0] if rv else tr.node,
              f"`{txt}` does not multiply by both self.iTR and self.iInv: time reversal (k → −k) or inversion is not applied to k-points, so for "
              f"magnetic groups the star of a K-point — and with it the irreducible weights — is wrong", stmt=f"return {txt}")
     ini = idx.function(PS, "PointSymmetry.__init__")
-    ti = norm(ini.node).replace(" ", "")
-    r5.check("self.iTR=-1ifself.TRelse1" in ti and "self.iInv=-1ifself.Invelse1" in ti, "iTR / iInv are −1 exactly for TR / improper operations", ini, ini.node,
+    sgn = {}
+    for s_ in stmts(ini.node):
+        if isinstance(s_, ast.Assign) and norm(s_.targets[0]) in ("self.iTR", "self.iInv"):
+            flag = {"self.iTR": "TR", "self.iInv": "Inv"}[norm(s_.targets[0])]
+            v = s_.value
+            sgn[flag] = isinstance(v, ast.IfExp) and ((norm(v.test) == f"self.{flag}" and const_of(v.body) == -1 and const_of(v.orelse) == 1)
+                                                      or (norm(v.test) == f"not self.{flag}" and const_of(v.body) == 1 and const_of(v.orelse) == -1)) \
+                or norm(v).replace(" ", "") in (f"1-2*self.{flag}", f"(-1)**self.{flag}", f"1-2*int(self.{flag})")
+    r5.check(sgn.get("TR") is True and sgn.get("Inv") is True, "iTR / iInv are −1 exactly for TR / improper operations", ini, ini.node,
              "iTR / iInv are no longer −1 for time-reversal / improper operations", stmt="iTR iInv")
     st = idx.function(PS, "PointGroup.star")
-    r5.check("S.transform_reduced_vector(k, self.recip_lattice) for S in self.symmetries" in norm(st.node), "the star applies every operation of the group", st, st.node,
+    kp_ = st.params[1]
+    r5.check(bool(pmatch(st.node, f"[S_.transform_reduced_vector({kp_}, self.recip_lattice) for S_ in self.symmetries]", {"S_"})
+                  or pmatch(st.node, f"(S_.transform_reduced_vector({kp_}, self.recip_lattice) for S_ in self.symmetries)", {"S_"})),
+             "the star applies every operation of the group", st, st.node,
              "PointGroup.star no longer applies transform_reduced_vector of every operation", stmt="star")
 
 
